@@ -150,6 +150,10 @@ impl Rt {
     pub fn storage(&self) -> TagStorage {
         let mut s = MockStorage::new();
         s.set(b"seed-marker", format!("seeded-{}", self.seed).as_bytes());
+        // keys the init function removes / overwrites / leaves alone
+        s.set(b"seed-victim", b"doomed");
+        s.set(b"seed-overwrite", b"old");
+        s.set(b"seed-untouched", b"kept");
         TagStorage(s)
     }
     /// The block handed to `with_block`: boundary values rotate with the seed (height 0 / 1 / max, time 0, empty chain id).
@@ -198,6 +202,9 @@ impl Rt {
             // the marker records what the init function found in the storage it was given
             let seen = storage.get(b"seed-marker").map(|v| String::from_utf8_lossy(&v).to_string()).unwrap_or_else(|| "none".into());
             storage.set(b"init-marker", format!("{}|saw:{}", payload, seen).as_bytes());
+            // the init function works on the supplied storage itself: what it removes is gone, what it overwrites is new
+            storage.remove(b"seed-victim");
+            storage.set(b"seed-overwrite", b"new");
         })
     }
 }
@@ -237,7 +244,8 @@ where
     };
     // init ran exactly once, against the storage that was supplied (observed first: later probes may write)
     t.push(format!("init: count={} marker={}", counter.get(), app.storage().get(b"init-marker").map(|v| String::from_utf8_lossy(&v).to_string()).unwrap_or_else(|| "none".into())));
-    t.push(format!("storage: {}", app.storage().get(b"seed-marker").map(|v| String::from_utf8_lossy(&v).to_string()).unwrap_or_else(|| "none".into())));
+    let show_key = |k: &[u8]| app.storage().get(k).map(|v| String::from_utf8_lossy(&v).to_string()).unwrap_or_else(|| "none".into());
+    t.push(format!("storage: {} victim={} overwrite={} untouched={}", show_key(b"seed-marker"), show_key(b"seed-victim"), show_key(b"seed-overwrite"), show_key(b"seed-untouched")));
     t.push(format!("api: {}", app.api().addr_humanize(&CanonicalAddr::from(vec![1u8; 20])).map(|a| a.as_str().split('1').next().unwrap_or("").to_string()).unwrap_or_else(|_| "err".into())));
     let b = app.block_info();
     t.push(format!("block: {} {} {}", b.height, b.time.nanos(), b.chain_id));
@@ -264,7 +272,7 @@ fn expected_line(slot: &str, tagged: bool, rt: &Rt, storage_tagged: bool, defaul
     let default_of = |prefix: &str| defaults.iter().find(|l| l.starts_with(prefix)).cloned().unwrap_or_default();
     match (slot, tagged) {
         ("init", _) => format!("init: count=1 marker=init-{}|saw:{}", rt.seed, if storage_tagged { format!("seeded-{}", rt.seed) } else { "none".into() }),
-        ("storage", true) => format!("storage: seeded-{}", rt.seed),
+        ("storage", true) => format!("storage: seeded-{} victim=none overwrite=new untouched=kept", rt.seed),
         ("api", true) => "api: tagapi".into(),
         ("block", true) => {
             let b = rt.block();
@@ -409,7 +417,7 @@ fn main() {
         };
         let defaults = chains.iter().find(|(steps, _)| steps.is_empty()).map(|(_, t)| t.clone()).unwrap_or_default();
         // defaults of the empty chain must themselves be the documented defaults
-        let want_defaults = ["init: count=1", "storage: none", "api: cosmwasm", "block: 12345 1571797419879305533 cosmos-testnet-14002", "custom: err err", "ibc: err err", "gov: err", "stargate: err err err err"];
+        let want_defaults = ["init: count=1", "storage: none victim=none overwrite=new untouched=none", "api: cosmwasm", "block: 12345 1571797419879305533 cosmos-testnet-14002", "custom: err err", "ibc: err err", "gov: err", "stargate: err err err err"];
         for w in want_defaults {
             rep.bump("c20/default_lines_checked");
             if !defaults.iter().any(|l| l.starts_with(w)) {
